@@ -82,6 +82,19 @@ connection carrying its unread bytes with it; compared with the real `client.Cli
 * `sequence_returns_own_responses`: hence, by induction, for every sequence of repeatable requests answered with one
   message each, from any state without unread bytes, the outcomes are those of the exchanges taken alone - whatever
   the earlier exchanges were (refused for size, failed, closed by the peer).
+  Since /repo 19d2b4c these hold with `resp.SkipBody` set by the application for any of the requests (`Req.appSkip`,
+  arbitrary in all three statements): `SelfDelimited` speaks of the bytes as read WITHOUT that flag, i.e. the server
+  sent one complete message; the body the application did not want is never the front of a later response because
+* `skipped_body_closes_connection`: a response whose body was skipped at the application's wish although it has one
+  (not HEAD, status that may carry a body, `Content-Length` other than 0) never takes its connection back to the pool.
+  (Before the repair `attempt` released it; the statement was false, see corpus/C11/seq-response-reuse-after-head.txt.)
+  `retryable` now means idempotent method AND body not a stream (/repo 3183d35).
+* `skip_flag_restored`: after ANY `Do` - one pass or two, response returned or not, HEAD or not - `resp.SkipBody` is
+  what `Do` found (`Exchange.skipAfterDo`, the passes of `doNonNilReqResp` one after the other, each saving the flag,
+  marking it for HEAD and giving the saved value back on every way out; /repo 07a471c.  With the restore only on the
+  path that returns a response the statement was false: corpus/C11/seq-head-retried-then-get.txt);
+* `response_object_keeps_application_flag`: hence, for one Response object passed to a whole sequence of calls, every
+  call finds exactly what the application has set so far, never a mark of the client.
 
 TODO-OPEN (not proved as theorems; evaluated per explored case by the spec step):
 * the `SkipBody` flag of the client (`RT.readResponseSkip true`, three lines restating the first `if` of
@@ -458,10 +471,59 @@ example : Exchange.Clean {} ∧ ({} : Exchange.Req).retryable = true ∧ Exchang
   rw [h'] at hv
   simpa [Except.toOption] using hv
 
+theorem skipped_body_closes_connection (cfg : Exchange.Cfg) (rq : Exchange.Req) (sv : Exchange.Srv) (c : Exchange.Conn)
+    (inPool : Bool) (r : Result) (h : (Exchange.attempt cfg rq sv c inPool).2 = .ok r)
+    (hb : Exchange.bodyUnread rq r.head = true) : (Exchange.attempt cfg rq sv c inPool).1 = none :=
+  Exchange.attempt_unread_closes cfg rq sv c inPool r h hb
+
+/-- non-vacuity: the application sets `SkipBody` for a GET answered with a 5-byte body: the response comes back without
+body, the next exchange dials again and gets its own answer; for a HEAD request (the client's own skip) the connection is
+used again -/
+example : ((Exchange.run {} {} [({ appSkip := true }, exBig), ({}, exSmall)]).map
+            (fun x => (x.1, (match x.2 with | .ok r => some r.body | _ => none)))) = [(1, some []), (2, some [104, 105])] ∧
+          ((Exchange.run {} {} [({ skipBody := true }, { resp := exBig.resp.take 38 }), ({}, exSmall)]).map
+            (fun x => (x.1, (match x.2 with | .ok r => some r.body | _ => none)))) = [(1, some []), (1, some [104, 105])] := by
+  decide +kernel
+
+theorem skip_flag_restored (cfg : Exchange.Cfg) (st : Exchange.St) (rq : Exchange.Req) (sv : Exchange.Srv) :
+    Exchange.skipAfterDo cfg st rq sv = rq.appSkip :=
+  Exchange.skipAfterDo_eq cfg st rq sv
+
+/-- non-vacuity: a HEAD request on a pooled connection the peer has closed IS retried (two passes), and the flag after
+`Do` is still the application's `false`; with the application's flag set it is still `true` -/
+example : Exchange.retried {} { idle := some { peerClosed := true } } { skipBody := true } exSmall = true ∧
+    Exchange.skipAfterDo {} { idle := some { peerClosed := true } } { skipBody := true } exSmall = false ∧
+    Exchange.skipAfterDo {} { idle := some { peerClosed := true } } { skipBody := true, appSkip := true } exSmall = true := by
+  decide +kernel
+
+theorem response_object_keeps_application_flag (cfg : Exchange.Cfg) (xs : List (Bool × Exchange.Req × Exchange.Srv))
+    (st : Exchange.St) (flag : Bool) :
+    Exchange.foundFlags cfg st flag xs = Exchange.setSoFar flag (xs.map (·.1)) :=
+  Exchange.foundFlags_eq cfg xs st flag
+
+/-- non-vacuity: GET (peer closes afterwards), HEAD (retried), GET, then a GET for which the application sets the flag,
+then one more GET: found flags -/
+example : Exchange.foundFlags {} {} false
+    [(false, {}, { exSmall with closeAfter := true }), (false, { skipBody := true }, exSmall), (false, {}, exSmall),
+     (true, {}, exSmall), (false, {}, exSmall)] = [false, false, false, true, true] := by decide +kernel
+
 theorem sequence_returns_own_responses (cfg : Exchange.Cfg) (xs : List (Exchange.Req × Exchange.Srv)) (st : Exchange.St)
     (hc : Exchange.Clean st) (hx : ∀ x ∈ xs, x.1.retryable = true ∧ Exchange.SelfDelimited cfg x.1 x.2) :
     (Exchange.run cfg st xs).map (·.2) = xs.map (fun x => Exchange.alone cfg x.1 x.2) :=
   Exchange.run_eq_alone cfg xs st hc hx
+
+/-- non-vacuity with `SkipBody` set by the application: the hypotheses hold for such a request, and the sequence
+[skipped 5-byte body, small answer] returns each exchange's own response -/
+example : ({ appSkip := true } : Exchange.Req).retryable = true ∧ Exchange.SelfDelimited {} { appSkip := true } exSmall ∧
+    (Exchange.run {} {} [({ appSkip := true }, exBig), ({}, exSmall)]).map (·.2) =
+      [Exchange.alone {} { appSkip := true } exBig, Exchange.alone {} {} exSmall] := by
+  refine ⟨rfl, ?_, by decide +kernel⟩
+  intro r h
+  have hv : (readResponseSkip false false 0 (Exchange.endOf (Exchange.serve {} exSmall)) exSmall.resp).toOption.map (·.rest) = some [] := by
+    decide +kernel
+  have h' : readResponseSkip false false 0 (Exchange.endOf (Exchange.serve {} exSmall)) exSmall.resp = .ok r := h
+  rw [h'] at hv
+  simpa [Except.toOption] using hv
 
 /-- non-vacuity: the refused oversize answer and the small one, each as if alone -/
 example : (Exchange.run { maxBody := 3 } {} [({}, exBig), ({}, exSmall)]).map (·.2) =
